@@ -59,7 +59,7 @@ def run(ck):
         ck.cov["evaluations"] = 1
         ck.cov["distinct_nontrivial"] = 2
         return
-    evs = trace(ck, 12 if q else 600)
+    evs = trace(ck, 40 if q else 600)
     obs = [e for e in evs if e["ev"] == "obs"]
     forms = sorted({e["phase"] for e in obs})
     impls = sorted({e["op"] for e in obs})
